@@ -83,10 +83,10 @@ def r1_who_may_write(w):
 
 
 def _write_guard(v, bi):
-    for atom, vals, s in v.guards(bi):
+    for atom, vals, s in v.guards_ext(bi):
         if atom == CHECK and vals == {False}:
             return 'check==false'
-    for atom, vals, s in v.guards(bi):
+    for atom, vals, s in v.guards_ext(bi):
         if atom == INPLACE and vals == {True}:
             return 'inplace==true'
     return None
@@ -231,7 +231,7 @@ def r2_nothing_printed_in_check(w):
         if not ({'formatted', 'input'} & tags):
             continue
         n += 1
-        if any(atom == CHECK and vals == {False} for atom, vals, _ in v.guards(bi)):
+        if any(atom == CHECK and vals == {False} for atom, vals, _ in v.guards_ext(bi)):
             r.ok(cons, 'guarded by check==false')
         else:
             r.bad(cons, '%s|print-unguarded|%s' % (b.short, '+'.join(sorted(tags))),
@@ -530,14 +530,14 @@ def _differs_switches(c, v):
 
 
 def _differs_guard(c, v, bi):
-    """block is dominated by the edge formatted != content (ne true / eq false), operands formatted & input"""
+    """block is dominated by the edge formatted != content (ne true / eq false), operands formatted & input; seen through values built under that
+    edge (`FormatResult::Changed(..)` constructed in an expanded helper and matched on later) and through bool locals (guards_ext)"""
     b = v.b
-    for s in sorted(v.dom().get(bi, ())):
-        t = b.blocks[s]['term']
-        if t['t'] != 'switch' or s == bi:
+    for g in v.guards_ext(bi):
+        atom, vals, sw = g
+        if vals not in ({True}, {False}):
             continue
-        ors = v.pv.peel(v.pv.origins_operand(t['discr']))
-        for o in ors:
+        for o in v.pv.peel(v.pv.origins_operand(v.guard_operand(g))):
             o = strip_casts(o)
             if o[0] != 'call':
                 continue
@@ -552,11 +552,8 @@ def _differs_guard(c, v, bi):
             if not ((tags[0] == {'formatted'} and tags[1] == {'input'}) or (tags[1] == {'formatted'} and tags[0] == {'input'})):
                 continue
             want = True if is_ne else False
-            for tgt, label in v.switch_edges(s):
-                if v.label_values(s, label) == {want}:
-                    import cfg
-                    if cfg.edge_dominates(b, s, tgt, bi):
-                        return True, 'dominated by %s(formatted, content)==%s' % ('ne' if is_ne else 'eq', want)
+            if vals == {want}:
+                return True, 'dominated by %s(formatted, content)==%s' % ('ne' if is_ne else 'eq', want)
     return False, 'no dominating comparison of the formatted text with the input content'
 
 
@@ -565,7 +562,7 @@ def _changed_guard(c, v, bi):
     if ok:
         return ok, why
     # via a FormatResult::Changed discriminant test
-    for atom, vals, s in v.guards(bi):
+    for atom, vals, s in v.guards_ext(bi):
         if vals == {'Changed'} and atom.startswith('discr(call:typstyle::'):
             return True, 'dominated by the Changed variant of a callee result (construction of that variant is checked separately)'
     return False, why
